@@ -73,7 +73,7 @@ def run_check(pid, tier, seed):
           "" if proof["ok"] else "  PROBLEMS: " + "; ".join(proof["problems"])[:600]))
     if tier == "thorough" and proof["ok"]:
         ok, out = O.leanchecker(pid)
-        run.notes["leanchecker"] = "ok" if ok else out
+        run.notes["leanchecker"] = ("ok: " + out) if ok else out
         if not ok:
             proof["ok"] = False
             proof["problems"].append("leanchecker: " + out)
